@@ -20,10 +20,11 @@ VARIABLES running, hist, waitq
 gvars == <<vars, running, hist, waitq>>
 
 (* Written over explicit values so that they can be applied to primed ones. *)
-ParkedV(pcp, lk) == pcp \in {"start", "valuer", "writing", "done"} \/ (pcp = "rendered" /\ lk # 0)
+ParkedV(pcp, lk) == pcp \in {"start", "valuer", "writing", "done", "panicked"} \/ (pcp = "rendered" /\ lk # 0)
 StatusV(pcp) == IF pcp = "valuer" THEN "valuer"
                 ELSE IF pcp = "writing" THEN "write"
                 ELSE IF pcp = "done" THEN "done"
+                ELSE IF pcp = "panicked" THEN "panic"
                 ELSE IF pcp = "start" THEN "start"
                 ELSE "blocked"
 AtGate(p)   == pc[p] \in {"start", "valuer", "writing"}
@@ -59,5 +60,5 @@ GSpec == GInit /\ [][GNext]_gvars
 Order == [i \in 1..Len(LinesOf(stream)) |-> LinesOf(stream)[i][1] \div 100]
 
 Emit == (AllDone /\ running = 0) =>
-            CSVWrite("%1$s", <<ToJson([gates |-> NGates, sched |-> hist, order |-> Order])>>, "hybrid_schedules.ndjson")
+            CSVWrite("%1$s", <<ToJson([gates |-> NGates, big |-> [p \in Procs |-> IF BigRec[p] THEN 1 ELSE 0], sched |-> hist, order |-> Order])>>, "hybrid_schedules.ndjson")
 =============================================================================
